@@ -36,7 +36,9 @@ class LocalSim(mosaik_api_v3.Simulator):
         plan = getattr(self.ctx.behaviour, "plan", None)
         if plan and plan["sid"] == self.sid and plan["req"] == "setup_done" and plan["kind"] == "raise":
             self.ctx.record({"k": "FAULT", "s": self.sid, "kind": "raise", "req": "setup_done"})
-            raise RuntimeError(f"injected failure in {self.sid}.setup_done")
+            from .behave import make_exc
+
+            raise make_exc(plan.get("exc"), f"injected failure in {self.sid}.setup_done")
 
     def _begin(self, kind, args):
         ctx = self.ctx
@@ -55,6 +57,12 @@ class LocalSim(mosaik_api_v3.Simulator):
         rep = ctx.behaviour.reply(ctx, p)
         ctx.last_reply[(self.sid, kind)] = rep.value
         ctx.delivered.append((ctx.ncall, self.sid, kind, False))
+        if ctx.rt is not None and hasattr(ctx.behaviour, "duration"):
+            # real-time runs: an in-process simulator computes SYNCHRONOUSLY - the (virtual) wall clock advances while
+            # nothing else, not even the start of the other simulators' processes, can happen
+            d = ctx.behaviour.duration(ctx, p)
+            if d > 0:
+                ctx.loop._vtime += d
         return rep
 
     def step(self, time, inputs, max_advance):
